@@ -169,6 +169,37 @@ theorem rank_eq_keptPos (n : Nat) (measure : List Nat) (hnd : measure.Nodup)
     have := h2 (by omega)
     simp [hc] at this
 
+/-! ### flat index of the sampled distribution ↔ multi-index -/
+
+theorem flatIndex_append (D : Nat) (q : List Nat) (v : Nat) : flatIndex D (q ++ [v]) = flatIndex D q * D + v := by
+  simp [flatIndex, List.foldl_append]
+
+/-- `unIndex` decodes the C-order flat index of every multi-index below the cutoff -/
+theorem unIndex_flatIndex (D : Nat) (p : List Nat) (hp : ∀ v ∈ p, v < D) :
+    unIndex (flatIndex D p) p.length D = p := by
+  induction p using List.reverseRecOn with
+  | nil => rfl
+  | append_singleton q v ih =>
+    have hv : v < D := hp v (by simp)
+    have hD : 0 < D := by omega
+    have ihq := ih (fun x hx => hp x (by simp [hx]))
+    rw [flatIndex_append]
+    simp only [unIndex, List.length_append, List.length_singleton, List.range_succ, List.map_append, List.map_cons,
+      List.map_nil]
+    congr 1
+    · refine Eq.trans ?_ ihq
+      simp only [unIndex]
+      apply List.map_congr_left
+      intro m hm
+      have hm' : m < q.length := List.mem_range.mp hm
+      have e1 : q.length + 1 - 1 - m = (q.length - 1 - m) + 1 := by omega
+      have e3 : (flatIndex D q * D + v) / D = flatIndex D q := by
+        rw [Nat.mul_comm, Nat.mul_add_div hD, Nat.div_eq_of_lt hv]; simp
+      rw [e1, pow_succ, Nat.mul_comm (D ^ _) D, ← Nat.div_div_eq_div_mul, e3]
+    · have e2 : q.length + 1 - 1 - q.length = 0 := by omega
+      rw [e2]
+      simp [Nat.mul_add_mod_of_lt hv]
+
 /-! ### engine: `samples_dict` updates -/
 
 section engine
